@@ -772,6 +772,56 @@ def ob_hetero_aniso(dim, voigt):
     return Verdict(DISCHARGED, backend="native run vs the homogeneous law point by point", sub=n)
 
 
+def ob_reduction_axes(law, planeStress):
+    """2-D transversely isotropic / orthotropic / anisotropic laws with material axes in ANY orientation (in-plane, tilted out of the plane, generic, unnormalised;
+    homogeneous and per-element parameters): plane stress -> the compliance is the [11, 22, 12] block of the 3-D compliance built on the same axes (zero
+    out-of-plane STRESS, out-of-plane shear strains free); plane strain -> the stiffness is that block of the 3-D stiffness; C S == I."""
+    from EasyFEA import Models
+    E_ = Models.Elastic
+    x = np.array([0, 1, 5])
+    th, ph = 0.7, 0.5
+    Rz = np.array([[np.cos(th), -np.sin(th), 0], [np.sin(th), np.cos(th), 0], [0, 0, 1]])
+    Ry = np.array([[np.cos(ph), 0, np.sin(ph)], [0, 1, 0], [-np.sin(ph), 0, np.cos(ph)]])
+    Rx = np.array([[1, 0, 0], [0, np.cos(1.1), -np.sin(1.1)], [0, np.sin(1.1), np.cos(1.1)]])
+    frames = {"default": np.eye(3), "in-plane": Rz, "tilted": Ry, "tilted+spin": Rz @ Ry, "generic": Rz @ Ry @ Rx, "quarter": np.array([[0.0, 0, 1], [0, 1, 0], [-1, 0, 0]])}
+    rng = np.random.default_rng(31)
+    n = 0
+    for fname, R in frames.items():
+        for scale in ((1.0, 1.0), (2.5, 0.4)):
+            a1, a2 = R[:, 0] * scale[0], R[:, 1] * scale[1]
+            for field in (False, True):
+                f = (lambda v: v * (1 + 0.2 * rng.uniform(-1, 1, size=3))) if field else (lambda v: v)
+                if law == "TransverselyIsotropic":
+                    kw = dict(El=f(11.0), Et=f(3.0), Gl=f(1.7), vl=0.26, vt=0.31, axis_l=a1, axis_t=a2)
+                    mk = lambda dim, **k: E_.TransverselyIsotropic(dim, **kw, **k)
+                elif law == "Orthotropic":
+                    kw = dict(E1=f(11.0), E2=f(5.0), E3=f(3.0), G23=1.1, G13=1.4, G12=f(1.9), v23=0.2, v13=0.24, v12=0.3, axis_1=a1, axis_2=a2)
+                    mk = lambda dim, **k: E_.Orthotropic(dim, **kw, **k)
+                else:
+                    A = rng.normal(size=((3,) if field else ()) + (6, 6))
+                    C6 = A @ np.swapaxes(A, -1, -2) + 6 * np.eye(6)
+                    if planeStress:
+                        continue            # the anisotropic law takes a 2-D matrix for 2-D problems; its 6x6 input is reduced in plane strain only (C11.aniso.notation)
+                    mk = lambda dim, **k: E_.Anisotropic(dim, C6, useVoigtNotation=False, axis1=a1, axis2=a2)
+                m3 = mk(3) if law == "Anisotropic" else mk(3, planeStress=False)
+                m2 = mk(2) if law == "Anisotropic" else mk(2, planeStress=planeStress)
+                C3, S3, C2, S2 = (np.asarray(v) for v in (m3.C, m3.S, m2.C, m2.S))
+                blk = lambda M: M[..., x[:, None], x]
+                n += 2
+                if planeStress:
+                    e1 = float(np.abs(S2 - blk(S3)).max() / np.abs(blk(S3)).max())
+                    what = "compliance != [11,22,12] block of the 3-D compliance (zero out-of-plane stress)"
+                else:
+                    e1 = float(np.abs(C2 - blk(C3)).max() / np.abs(blk(C3)).max())
+                    what = "stiffness != [11,22,12] block of the 3-D stiffness (zero out-of-plane strain)"
+                e2 = float(np.abs(C2 @ S2 - np.eye(3)).max())
+                if not (e1 < 1e-12 and e2 < 1e-10):
+                    raise Refuted(f"{law} 2-D {'plane stress' if planeStress else 'plane strain'}, axes '{fname}' (lengths {scale}), {'per-element' if field else 'homogeneous'} parameters: {what} "
+                                  f"(relative {e1:.3e}); |C S - I| = {e2:.1e}", cex=dict(law=law, planeStress=planeStress, axes=fname, axis_1=a1.tolist(), axis_2=a2.tolist(), field=field),
+                                  signature=f"reduction:{law}:{planeStress}:{fname}", replay=dict(confirmed=True, rel_err=e1))
+    return Verdict(DISCHARGED, backend="native run of the real law classes: 2-D law vs the block of the 3-D law on the same axes", sub=n)
+
+
 HALF_TURNS = {"x": [[1, 0, 0], [0, -1, 0], [0, 0, -1]], "y": [[-1, 0, 0], [0, 1, 0], [0, 0, -1]], "z": [[-1, 0, 0], [0, -1, 0], [0, 0, 1]]}
 
 
@@ -822,6 +872,11 @@ def build(tier, seed):
         for voigt in (False, True):
             obs.append(Ob(f"C11.hetero.Anisotropic.{dim}d.{'voigt' if voigt else 'km'}", ob_hetero_aniso, (dim, voigt), "X", (fl("Anisotropic._Behavior"), fl("Anisotropic.Set_C"), fu("Apply_Pmat")),
                           bound="Ne = 3, nPg = 2, random SPD matrices, floats", clause="a field of stiffness matrices gives at (e, p) the law of the matrix at (e, p), in both notations, after construction and after Set_C", timeout=600))
+    for law in ("TransverselyIsotropic", "Orthotropic", "Anisotropic"):
+        for ps in ((True, False) if law != "Anisotropic" else (False,)):
+            obs.append(Ob(f"C11.reduction.axes.{law}.{'planeStress' if ps else 'planeStrain'}", ob_reduction_axes, (law, ps), "X", (fl("_Elastic._Apply_basis_transformation"), fl(f"{law}._Behavior")),
+                          bound="6 axis frames (default, in-plane, tilted out of the plane, tilted+spin, generic, quarter turn) x 2 length pairs x homogeneous / per-element parameters, floats",
+                          clause="the 2-D law is the zero-out-of-plane-stress (resp. strain) reduction of the 3-D law built on the same axes, whatever their orientation; C S == I", timeout=600))
     obs.append(Ob("canary.iso.reduction", ob_iso_reduction, (True, True), "P", expect=REFUTED, timeout=120))
     obs.append(Ob("canary.TI.inverse", ob_material_inverse, ("TransverselyIsotropic", True), "P", expect=REFUTED, timeout=300))
     functions = {}
